@@ -2,8 +2,9 @@
 portfolio at every persistence point of real runs, compared with the persistence model whose key tables are regenerated from the source;
 (B) the real PersistHelper on scripted state sequences vs model `persistSeq`; (C) whole runs stopped at a random day and resumed from the
 persisted state vs the uninterrupted run (events vs model `execResume`, traces compared entry by entry)."""
-import random, json, copy, datetime
+import os, random, json, copy, datetime
 import vlib, bundle as B, trading, recorder, isotrace, persist_mod, acct_sync
+HARNESS = os.path.dirname(os.path.dirname(os.path.abspath(__file__)))
 
 LEVEL = "proof"
 RULE = ("(A) every POST_BAR / POST_AFTER_TRADING / POST_SETTLEMENT of trading-stream runs (stock and futures positions, receivable dividends, liabilities, deposits in transit, management fees): "
@@ -213,6 +214,55 @@ def canon_slice(events):
     return isotrace.canon(t)[:-1]
 
 
+def run_leg(S, cfgk, seed, with_an, start, end, persist, resume):
+    """one leg of a stop/resume pair (module level: the resumed leg can also be run by harness/resume_worker.py in a fresh process)"""
+    kk = dict(cfgk, start=start, end=end)
+    kk["extra_mods"] = {"rqv_persist": {"enabled": True, "lib": "persist_mod"}} if persist else {}
+    kk["base_extra"] = dict(cfgk.get("base_extra") or {}, **({"persist": True, "persist_mode": "real_time"} if persist else {}))
+    persist_mod.RESUME[0] = resume
+    an = {"enabled": True, "record": True, "plot": False, "benchmark": None} if with_an else False
+
+    def script(tr, handlers):
+        """strategy state that must survive the stop: a counter in the context, the universe, scheduler rules (weekly / monthly / daily)"""
+        from rqalpha.environment import Environment
+        init0, hb0 = handlers["init"], handlers["handle_bar"]
+        ids_ = [s_["id"] for s_ in S["stocks"]]
+
+        def init(context):
+            import rqalpha.api as api
+            init0(context)
+            context.bars_seen = 0
+            context.flag = False
+            context.positions_at_init = len(context.portfolio.positions)       # the mapping is touched before the state is restored
+            env = Environment.get_instance()
+            log = lambda name: (lambda c, b: tr.events.append(("SCHEDULED", {"cal": env.calendar_dt, "rule": name, "bars_seen": c.bars_seen})))
+            api.scheduler.run_daily(log("daily"))
+            api.scheduler.run_weekly(log("weekly_td2"), tradingday=2)
+            api.scheduler.run_weekly(log("weekly_last"), tradingday=-1)
+            api.scheduler.run_monthly(log("monthly_td3"), tradingday=3)
+
+        def handle_bar(context, bar_dict):
+            import rqalpha.api as api
+            env = Environment.get_instance()
+            context.bars_seen += 1
+            context.flag = (context.bars_seen % 3 == 0)
+            universe_at_bar_start = sorted(context.universe)          # what the previous bar (or the restored state) left
+            if ids_:
+                live = [i for i in ids_ if env.data_proxy.instrument(i).listed_at(env.trading_dt)] if hasattr(env.data_proxy.instrument(ids_[0]), "listed_at") else ids_
+                if context.bars_seen % 4 == 3:
+                    api.update_universe([])                            # going flat: the universe is emptied
+                else:
+                    api.update_universe(live[: 1 + context.bars_seen % max(1, len(live))] or live[:1])
+            held_map = {k_: (v_.quantity if hasattr(v_, "quantity") else (v_.buy_quantity, v_.sell_quantity)) for k_, v_ in context.portfolio.positions.items()
+                        if (v_.quantity if hasattr(v_, "quantity") else (v_.buy_quantity or v_.sell_quantity))}
+            held_api = {p_.order_book_id: p_.quantity for p_ in api.get_positions() if p_.quantity and p_.direction.name == "LONG"}
+            tr.events.append(("UNIVERSE_ORDER", {"cal": env.calendar_dt, "keys": list(bar_dict.keys()), "universe_at_bar_start": universe_at_bar_start, "bars_seen": context.bars_seen, "flag": context.flag,
+                                                 "portfolio_positions": sorted(held_map.items()), "get_positions_long": sorted(held_api.items())}))
+            hb0(context, bar_dict)
+        return dict(handlers, init=init, handle_bar=handle_bar)
+    return trading.run_trading(random.Random(1), S, kk, reseed_key="c14-%d" % seed, analyser=an, script=script)
+
+
 def part_c(ctx, corr):
     rnd = random.Random(ctx.rnd.random())
     n = ctx.n(6, 150)
@@ -233,47 +283,7 @@ def part_c(ctx, corr):
         if len(days) < 3:
             continue
 
-        def go(start, end, persist, resume):
-            kk = dict(cfgk, start=start, end=end)
-            kk["extra_mods"] = {"rqv_persist": {"enabled": True, "lib": "persist_mod"}} if persist else {}
-            kk["base_extra"] = dict(cfgk.get("base_extra") or {}, **({"persist": True, "persist_mode": "real_time"} if persist else {}))
-            persist_mod.RESUME[0] = resume
-            an = {"enabled": True, "record": True, "plot": False, "benchmark": None} if with_an else False
-
-            def script(tr, handlers):
-                """strategy state that must survive the stop: a counter in the context, the universe, scheduler rules (weekly / monthly / daily)"""
-                from rqalpha.environment import Environment
-                init0, hb0 = handlers["init"], handlers["handle_bar"]
-                ids_ = [s_["id"] for s_ in S["stocks"]]
-
-                def init(context):
-                    import rqalpha.api as api
-                    init0(context)
-                    context.bars_seen = 0
-                    context.flag = False
-                    context.positions_at_init = len(context.portfolio.positions)       # the mapping is touched before the state is restored
-                    env = Environment.get_instance()
-                    log = lambda name: (lambda c, b: tr.events.append(("SCHEDULED", {"cal": env.calendar_dt, "rule": name, "bars_seen": c.bars_seen})))
-                    api.scheduler.run_daily(log("daily"))
-                    api.scheduler.run_weekly(log("weekly_td2"), tradingday=2)
-                    api.scheduler.run_weekly(log("weekly_last"), tradingday=-1)
-                    api.scheduler.run_monthly(log("monthly_td3"), tradingday=3)
-
-                def handle_bar(context, bar_dict):
-                    import rqalpha.api as api
-                    env = Environment.get_instance()
-                    context.bars_seen += 1
-                    context.flag = (context.bars_seen % 3 == 0)
-                    if ids_:
-                        live = [i for i in ids_ if env.data_proxy.instrument(i).listed_at(env.trading_dt)] if hasattr(env.data_proxy.instrument(ids_[0]), "listed_at") else ids_
-                        api.update_universe(live[: 1 + context.bars_seen % max(1, len(live))] or live[:1])
-                    held_map = {k_: v_.quantity for k_, v_ in context.portfolio.positions.items() if v_.quantity}
-                    held_api = {p_.order_book_id: p_.quantity for p_ in api.get_positions() if p_.quantity and p_.direction.name == "LONG"}
-                    tr.events.append(("UNIVERSE_ORDER", {"cal": env.calendar_dt, "keys": list(bar_dict.keys()), "bars_seen": context.bars_seen, "flag": context.flag,
-                                                         "portfolio_positions": sorted(held_map.items()), "get_positions_long": sorted(held_api.items())}))
-                    hb0(context, bar_dict)
-                return dict(handlers, init=init, handle_bar=handle_bar)
-            return trading.run_trading(random.Random(1), S, kk, reseed_key="c14-%d" % seed, analyser=an, script=script)
+        go = lambda start, end, persist, resume: run_leg(S, cfgk, seed, with_an, start, end, persist, resume)
         full = go(days[0], days[-1], False, False)
         if full.exc is not None:
             ctx.stats["full_run_failed"] += 1
@@ -282,6 +292,7 @@ def part_c(ctx, corr):
         for si in stops:
             persist_mod.STORE.clear()
             p1 = go(days[0], days[si], True, False)
+            store_at_stop = dict(persist_mod.STORE)
             p2 = go(days[si + 1], days[-1], True, True)
             ctx.evaluations += 1
             ctx.stats["resumes"] += 1
@@ -332,6 +343,35 @@ def part_c(ctx, corr):
             d = isotrace.first_difference(tail, res)
             n_tr = len([1 for e in tail if e[0] == "TRADE"])
             ctx.nontrivial("resume", "future" in cfgk["accounts"], "stock" in cfgk["accounts"], with_fee, n_tr > 0, min(si, 2))
+            # ---- the same resumed leg in a FRESH process (futures accounts, first stop point): class-level and module-level state of the
+            # stopping process is gone, the persisted state alone must carry the run
+            ctx.stats["continuations_equal" if d is None else "continuations_differ"] += 1
+            if d is None and "future" in cfgk["accounts"] and (si == stops[0] or ctx.stats["resumes_in_a_fresh_process"] < 2):
+                import pickle, subprocess, tempfile
+                with tempfile.NamedTemporaryFile(dir="/dev/shm", suffix=".pkl", delete=False) as fh:
+                    pickle.dump({"S": S, "cfgk": cfgk, "seed": seed, "with_an": with_an, "start": days[si + 1], "end": days[-1], "store": store_at_stop}, fh)
+                try:
+                    envp = dict(os.environ, PYTHONPATH=vlib.REPO + ":" + HARNESS)
+                    pr = subprocess.run(["/venv/bin/python", os.path.join(HARNESS, "resume_worker.py"), fh.name],
+                                        capture_output=True, text=True, env=envp, timeout=600)
+                finally:
+                    os.unlink(fh.name)
+                if pr.returncode != 0:
+                    raise RuntimeError("resume_worker failed: " + pr.stderr[-1500:])
+                out = json.loads(pr.stdout.strip().splitlines()[-1])
+                ctx.stats["resumes_in_a_fresh_process"] += 1
+                ctx.evaluations += 1
+                if out["exc"] is not None:
+                    ctx.witness("C14.1", {"kind": "resumed_run_fails", "fresh_process": True}, "stop after %s: resumed in a fresh process: %s" % (days[si], out["exc"]), rp)
+                else:
+                    df = isotrace.first_difference(json.loads(json.dumps(tail)), out["trace"])
+                    if df is not None:
+                        i, a, b = df
+                        sa, sb = json.dumps(a), json.dumps(b)
+                        j = next((x for x in range(min(len(sa), len(sb))) if sa[x] != sb[x]), 0)
+                        ctx.witness("C14.1", {"kind": "continuation_differs_in_a_fresh_process", "entry": (a or b)[0]},
+                                    "stop after %s, resume on %s IN A FRESH PROCESS (the same resume inside the stopping process continues correctly): entry %d of the continuation (%s) differs "
+                                    "from the uninterrupted run: ...%s | ...%s" % (days[si], d0, i, (a or b)[0], sa[max(0, j - 160): j + 60], sb[max(0, j - 160): j + 60]), dict(rp, entry=i, fresh_process=True))
             if d is not None:
                 i, a, b = d
                 sa, sb = json.dumps(a), json.dumps(b)
